@@ -150,6 +150,18 @@ def stepLine (d : DS) (line : String) : DS × String :=
   | "mFA" :: rest => ({ d with finA := " ".intercalate rest }, "")
   | "mDB" :: rest => ({ d with dumpB := d.dumpB ++ [" ".intercalate rest] }, "")
   | "mDA" :: rest => ({ d with dumpA := d.dumpA ++ [" ".intercalate rest] }, "")
+  | ["mjudgecode"] =>
+    -- Compiler with function nodes: only the produced code is judged (error + CodeHolder dump equal the Assembler's)
+    let d := if d.finB == d.finA then d else flag d s!"finalize error differs: compiler '{d.finB}' assembler '{d.finA}'"
+    let d := if d.dumpB == d.dumpA then d
+             else
+               let firstDiff := (d.dumpB.zip d.dumpA).find? fun p => p.1 != p.2
+               flag d ("code differs: " ++ (match firstDiff with
+                 | some p => s!"compiler '{p.1}' assembler '{p.2}'"
+                 | none => s!"{d.dumpB.length} vs {d.dumpA.length} dump lines"))
+    (match d.bad with
+     | some why => ({}, "BAD " ++ why)
+     | none => ({}, "good"))
   | ["mjudge"] =>
     let d := if d.calls == Spec.linearize d.s then d
              else flag d s!"serialize_to issued {d.calls.length} calls that are not the edited sequence ({(Spec.linearize d.s).length} calls)"
